@@ -3,9 +3,14 @@ export GOPROXY=off
 export GOSUMDB=off
 export GOTOOLCHAIN=local
 
-setup: bin/gosx
+setup: bin/gosx bin/check
 
-bin/gosx: $(shell find gosx -name '*.go') gosx/go.mod
+GOSRC=$(shell find gosx -name '*.go') gosx/go.mod
+
+bin/gosx: $(GOSRC)
 	cd gosx && go build -o ../bin/gosx ./cmd/gosx
+
+bin/check: $(GOSRC)
+	cd gosx && go build -o ../bin/check ./cmd/check
 
 .PHONY: setup
